@@ -117,6 +117,23 @@ def py_validate(reqs):
     return [json.loads(l) for l in lines]
 
 
+def load_proposed(c):
+    """entries of checks/c12.chain_defaults.proposed_findings.json that known_findings.json does not hold yet"""
+    path = os.path.join(VERIF, "checks", "c12.chain_defaults.proposed_findings.json")
+    if not os.path.exists(path):
+        return
+    have = {f["id"] for f in c.known}
+    for f in json.load(open(path)).get("findings", []):
+        if f["id"] not in have and f.get("property") == c.pid:
+            c.known.append(f)
+
+
+def lab_stat(c, stream, key):
+    """a counter of the `stats map[...]` row of a lab stream"""
+    m = re.search(r"[\[ ]%s:(\d+)" % re.escape(key), c.cov.get("c12", {}).get(stream + ".stats", ""))
+    return int(m.group(1)) if m else 0
+
+
 def flags(text):
     return dict(kv.split("=", 1) for kv in text.split(" ") if "=" in kv)
 
@@ -130,6 +147,8 @@ class Run:
         self.dis = []          # (row, model, why)
         self.reported = 0
         self.seen_classes = {}
+        self.pinned = {}       # lab case id -> id of the pinned term
+        self.sources = {}      # lab case id -> schema text handed to cog (JSON string)
 
     def bump(self, k, n=1):
         self.stats[k] = self.stats.get(k, 0) + n
@@ -148,6 +167,12 @@ class Run:
                 m = re.match(r"case (\S+) (.*)", r[1])
                 if m:
                     cases[m.group(1)] = r[1]
+                m = re.match(r"pinned (\S+) (\S+) ", r[1])
+                if m:
+                    self.pinned[m.group(2)] = m.group(1)
+                m = re.match(r"source (\S+) (.*)", r[1])
+                if m:
+                    self.sources[m.group(1)] = m.group(2)
                 self.oracle(r, "", stream, kw, cases, emitted)
                 continue
             model = next(it)
@@ -240,6 +265,9 @@ class Run:
         for part in parts:
             text = r[0] + "\tFAIL " + part
             cls = re.sub(r"case=\S+|at=\S+|msg=.*|name=\S+|claimed-by=\S+|value=\S+|pkg=\S+|schema \"[^\"]*\"|\[[a-z0-9]+\] ", "", "FAIL " + part)
+            if part.startswith("chain-default-"):
+                # one class per (where the front-end default sits, emitted document, input format)
+                cls = re.sub(r" kind=\S+ ir=.*?(?= doc=)", "", cls)
             cls = re.sub(r"[0-9]+", "N", cls)[:160]
             if cls in self.seen_classes:
                 if self.seen_classes[cls]:
@@ -254,6 +282,13 @@ class Run:
                 payload = {"kind": "oracle-failure", "stream": stream, "args": kw, "request": r[0][:20000], "impl": r[1][:20000],
                            "oracle": "FAIL " + part, "class": cls, "model": model[:2000]}
                 m = re.search(r"case=(\S+)", part)
+                if m and m.group(1) in self.pinned and stream == "c12-labpinned":
+                    payload["args"] = dict(kw, id=self.pinned[m.group(1)])   # replay: this pinned term only
+                if m and m.group(1) in self.sources:
+                    try:
+                        payload["source_text"] = json.loads(self.sources[m.group(1)])[:20000]
+                    except ValueError:
+                        pass
                 if m and m.group(1) in cases:
                     payload["case"] = cases[m.group(1)]
                     sm = re.search(r"format=(\S+) .*src=(\(defs .*)$", cases[m.group(1)])
@@ -419,7 +454,9 @@ def front_emit_tie(c):
 
 def main():
     c = Check("C12")
-    # known findings come from /verif/known_findings.json only (Check loads the entries of this property)
+    # known findings come from /verif/known_findings.json (Check loads the entries of this property) plus the entries
+    # proposed by the chain-default oracle that are not merged yet
+    load_proposed(c)
     c.trusted = [
         "Lean 4.33 kernel; axioms per theorem in obligation_list",
         "hand-written model lean/Cog/Sem/JsonSchemaOut.lean of internal/jennies/jsonschema/schema.go (formatType, the foreign-object closure loop) and of the OpenAPI wrapper, tied on every run by `jsemit`: the files the real pipeline emits for lab cases (3 input formats) and the jennies' output on random multi-package IR must equal the model's document (canonical JSON)",
@@ -443,6 +480,12 @@ def main():
     # run under a watchdog; a relapse answers `hang`, disagrees with the (terminating) model and matches no finding
     run_stream(c, hb, "c12-hang", ms=3000 if quick else 8000)
     run_stream(c, hb, "c12-labpinned")
+    # chain-default oracle (harness/c12_chain.go): the defaults of the FRONT-END IR of the same run (before the compiler
+    # passes the jsonschema / openapi languages run themselves) against the emitted properties; the pinned terms hold
+    # `T | null` and `null | T` unions whose default sits on the non-null branch (JSON Schema) / on the union (CUE)
+    nb, nu = lab_stat(c, "c12-labpinned", "chain-defaults:on-nullable-union-branch"), lab_stat(c, "c12-labpinned", "chain-defaults:on-nullable-union")
+    c.oblige("chain-default oracle is not vacuous on the pinned terms: front-end IR members whose default sits on the non-null branch of a `T | null` / `null | T` union (%d) and on such a union itself (%d) were compared with the emitted JSON Schema properties" % (nb, nu),
+             nb >= 8 and nu >= 6 and lab_stat(c, "c12-labpinned", "chain-defaults:no-front-end-ir") == 0)
     # boundary terms (zero / empty / equal bounds, enumerations holding 0, falsy defaults) x 3 formats: values AT the
     # bounds through real generated code, single-fault documents one step BEYOND them against the emitted schema
     run_stream(c, hb, "c12-bounds", n=8 if quick else 120, docs=12 if quick else 20, seed=c.seed)
@@ -459,7 +502,7 @@ def main():
     run_stream(c, hb, "c12-lab", n=n // 2, docs=docs, seed=c.seed + 1000, tier=c.tier, switches="-any")
     front_emit_tie(c)   # source JSON Schema → front-end → emitted schema (instances on the real IR, real emitter, real validator)
     c.finish("cd /verif/lean && lake build Cog.Props.C12 drv && lake env lean <#print axioms of the C12 theorems>",
-             "pinned sets (one per recorded finding) + one watchdog run of the formerly non-terminating emission (foreign cycles are always run under a watchdog); random multi-package IR (every Kind, cross-package references, same-named objects) through the jennies vs the Lean emitter; Src terms x 3 input formats through the real pipeline: emitted JSON Schema / OpenAPI files vs the Lean emitter, independent loaders, $ref / presence / carried-over oracles, and every source-valid document re-encoded by real generated Go code validated against the emitted schema (santhosh + python jsonschema vs Lean jsValid; hypotheses of the partial theorem evaluated per document). non-trivial = emitted document > 600 bytes that the model reproduces, or validated document with >= 6 nested values")
+             "pinned sets (one per recorded finding) + one watchdog run of the formerly non-terminating emission (foreign cycles are always run under a watchdog); random multi-package IR (every Kind, cross-package references, same-named objects) through the jennies vs the Lean emitter; Src terms x 3 input formats through the real pipeline: emitted JSON Schema / OpenAPI files vs the Lean emitter, independent loaders, $ref / presence / carried-over oracles, the chain-default oracle (front-end IR of the same run vs emitted `default`, across the language's own compiler passes), and every source-valid document re-encoded by real generated Go code validated against the emitted schema (santhosh + python jsonschema vs Lean jsValid; hypotheses of the partial theorem evaluated per document). non-trivial = emitted document > 600 bytes that the model reproduces, or validated document with >= 6 nested values")
 
 
 main()
